@@ -126,12 +126,14 @@ struct TC {
   int nb = 1, nf = 1, pat = 0, box = 0, vf = 0, nm = 0, shim = 0, m = 0, at = 0;
   // family ru (reuse histories): second format, base configurations of the two files, history kind
   std::string f2 = "", mode = "";
+  std::string seq = "";  // family dr: history of roles on ONE reader object, letters T J M
   int k1 = 0, k2 = 0;
   std::string str() const {
     std::ostringstream o;
     o << "fam=" << fam << ";fmt=" << fmt << ";nb=" << nb << ";nf=" << nf << ";pat=" << pat << ";box=" << box
       << ";vf=" << vf << ";nm=" << nm << ";shim=" << shim << ";m=" << m << ";at=" << at;
     if (fam == "ru") o << ";f2=" << f2 << ";k1=" << k1 << ";k2=" << k2 << ";mode=" << mode;
+    if (fam == "dr") o << ";seq=" << seq;
     return o.str();
   }
   static TC parse(const std::string &s) {
@@ -141,6 +143,7 @@ struct TC {
     c.nb = atoi(m["nb"].c_str()); c.nf = atoi(m["nf"].c_str()); c.pat = atoi(m["pat"].c_str());
     c.box = atoi(m["box"].c_str()); c.vf = atoi(m["vf"].c_str()); c.nm = atoi(m["nm"].c_str());
     c.shim = atoi(m["shim"].c_str()); c.m = atoi(m["m"].c_str()); c.at = atoi(m["at"].c_str());
+    if (m.count("seq")) c.seq = m["seq"];
     if (m.count("f2")) { c.f2 = m["f2"]; c.k1 = atoi(m["k1"].c_str()); c.k2 = atoi(m["k2"].c_str()); c.mode = m["mode"]; }
     return c;
   }
@@ -594,15 +597,25 @@ static void run_rt(const TC &c, Fails &F, std::string &sig) {
   }
 }
 
+static void write_data_file(const std::string &fn, int nb, int pat) {  // lammps data file, atom style "atom-ID atom-type x y z"
+  std::ofstream o(fn);
+  o << "LAMMPS data file written by the C08 harness\n\n" << nb << " atoms\n2 atom types\n\n"
+    << "0.0 30.0 xlo xhi\n0.0 45.0 ylo yhi\n0.0 62.5 zlo zhi\n\nMasses\n\n1 12.011\n2 15.9994\n\nAtoms\n\n";
+  static const double A[7] = {0.0, 1.5, -2.25, 12.345678, -0.000125, 7.0, 30.0};
+  for (int b = 0; b < nb; b++)
+    o << (b + 1) << " " << (b % 2 + 1) << " " << bsx::fmt(A[(pat + 3 * b) % 7]) << " " << bsx::fmt(A[(pat + 3 * b + 1) % 7]) << " "
+      << bsx::fmt(A[(pat + 3 * b + 2) % 7]) << "\n";
+  o << "\n";
+}
 // ------------------------------------------------------------------ family mm (atom-count mismatch must raise)
 static void run_mm(const TC &c, Fails &F, std::string &sig) {
-  const FmtInfo &fi = finfo(c.fmt);
-  std::string fn = "t." + fi.ext;
+  std::string fn = "t." + (c.fmt == "data" ? std::string("data") : finfo(c.fmt).ext);
   std::vector<int> counts;
   for (int f = 0; f < c.at; f++) counts.push_back(c.m);
   counts.push_back(c.nb);
   try {
-    write_frames(fn, c, counts);
+    if (c.fmt == "data") write_data_file(fn, c.nb, c.pat);  // no writer for lammps data files: harness-written, one frame
+    else write_frames(fn, c, counts);
   } catch (const std::exception &e) {
     sig = "blocked-write";
     return;
@@ -905,6 +918,117 @@ static void run_ru(const TC &c, Fails &F, std::string &sig) {
   throw std::runtime_error("unknown ru mode " + mode);
 }
 
+// ------------------------------------------------------------------ family dr (dual-role histories on ONE reader object)
+// GROReader, PDBReader, XYZReader, LAMMPSDumpReader and LAMMPSDataReader implement TopologyReader AND TrajectoryReader.
+// ONE object (factory product, cross-cast to the other interface) plays a history of roles; every step must give,
+// bit for bit, what a fresh reader object gives for the same step:
+//   T  ReadTopology(file A, fresh Topology)
+//   J  trajectory pass Open(file B) FirstFrame NextFrame... Close on a Topology built from file A by a FRESH reader
+//   M  the same pass with file C, which holds MORE atoms than that Topology (must report an error)
+//   m  the same pass with file D, which holds FEWER atoms (must report an error)
+static std::string hx(const Vector3d &v) { return bsx::hexd(v[0]) + "," + bsx::hexd(v[1]) + "," + bsx::hexd(v[2]); }
+static std::string hxm(const Matrix3d &m) {
+  std::string s;
+  for (int i = 0; i < 3; i++) for (int j = 0; j < 3; j++) s += bsx::hexd(m(i, j)) + ",";
+  return s;
+}
+static std::string canon_top(Topology &t) {
+  std::ostringstream o;
+  o << "beads=" << t.BeadCount() << " residues=" << t.ResidueCount() << " molecules=" << t.MoleculeCount() << " box=" << hxm(t.getBox());
+  for (Index b = 0; b < t.BeadCount(); b++) {
+    Bead *bd = t.getBead(b);
+    o << " |" << bd->getName() << ":" << bd->getType() << ":" << bd->getResnr() << ":"
+      << (bd->getResnr() >= 0 && bd->getResnr() < t.ResidueCount() ? t.getResidue(bd->getResnr()).getName() : "?") << ":" << bsx::hexd(bd->getMass()) << ":"
+      << bsx::hexd(bd->getQ()) << " p=" << (bd->HasPos() ? hx(bd->getPos()) : "-") << " v=" << (bd->HasVel() ? hx(bd->getVel()) : "-")
+      << " f=" << (bd->HasF() ? hx(bd->getF()) : "-");
+  }
+  return o.str();
+}
+static std::string canon_pass(const ReadOut &ro, Topology &t) {
+  std::ostringstream o;
+  o << "frames=" << ro.fr.size() << (ro.threw ? " ERROR at frame " + std::to_string(ro.threw_at) : std::string(" no error")) << " beads-afterwards=" << t.BeadCount();
+  for (size_t f = 0; f < ro.fr.size(); f++) {
+    const Frame &fr = ro.fr[f];
+    o << " || frame " << f << " beads=" << fr.p.size() << " box=" << hxm(fr.box);
+    for (size_t b = 0; b < fr.p.size(); b++)
+      o << " |p=" << hx(fr.p[b]) << " v=" << (fr.hv[b] ? hx(fr.v[b]) : "-") << " f=" << (fr.hf[b] ? hx(fr.f[b]) : "-");
+  }
+  return o.str();
+}
+static std::string first_diff(const std::string &a, const std::string &b) {
+  size_t i = 0;
+  while (i < a.size() && i < b.size() && a[i] == b[i]) i++;
+  size_t st = a.rfind(' ', i > 0 ? i - 1 : 0);
+  if (st == std::string::npos || i - st > 80) st = i > 40 ? i - 40 : 0;
+  return "one object: '" + a.substr(0, 60) + " ... " + a.substr(st, 110) + "' | fresh object: '" + b.substr(0, 60) + " ... " + b.substr(st, 110) + "'";
+}
+static void run_dr(const TC &c, Fails &F, std::string &sig) {
+  bool data = c.fmt == "data";
+  std::string ext = data ? "data" : finfo(c.fmt).ext;
+  std::string fA = "A." + ext, fB = "B." + ext, fC = "C." + ext, fD = "D." + ext;
+  int nm = c.fmt == "pdb" ? 3 : 1;
+  if (data) {
+    write_data_file(fA, 2, 0);
+    write_data_file(fB, 2, 2);
+    write_data_file(fC, 3, 4);
+    write_data_file(fD, 1, 5);
+  } else {
+    TC a; a.fam = "rt"; a.fmt = c.fmt; a.nb = 2; a.nf = 2; a.vf = 1; a.box = 0; a.pat = 3; a.nm = nm;
+    TC b = a; b.nf = 3; b.vf = 3; b.box = 1; b.pat = 5;
+    TC cc = a; cc.nb = 3; cc.nf = 2; cc.vf = 0; cc.pat = 7;
+    write_frames(fA, a, std::vector<int>(a.nf, a.nb));
+    write_frames(fB, b, std::vector<int>(b.nf, b.nb));
+    write_frames(fC, cc, std::vector<int>(cc.nf, cc.nb));
+    TC d = cc; d.nb = 1; d.pat = 2;
+    write_frames(fD, d, std::vector<int>(d.nf, d.nb));
+  }
+  std::vector<std::unique_ptr<Topology>> keep;  // every topology stays alive to the end of the case (CsgApplication keeps master and worker topologies too)
+  auto do_T = [&](TopologyReader &r) {
+    keep.push_back(std::make_unique<Topology>());
+    Topology &t = *keep.back();
+    try { r.ReadTopology(fA, t); } catch (const std::exception &e) { return std::string("ERROR ") + std::string(e.what()).substr(0, 80); }
+    return canon_top(t);
+  };
+  auto do_pass = [&](TrajectoryReader &r, const std::string &file, bool &threw) {
+    keep.push_back(std::make_unique<Topology>());
+    Topology &t = *keep.back();
+    {
+      std::unique_ptr<TopologyReader> ft = TopReaderFactory().Create(fA);  // the topology always comes from a FRESH reader
+      ft->ReadTopology(fA, t);
+    }
+    ReadOut ro = read_with(r, file, t);
+    if (ro.threw) { try { r.Close(); } catch (...) {} }
+    threw = ro.threw;
+    return canon_pass(ro, t);
+  };
+  std::unique_ptr<TopologyReader> one = TopReaderFactory().Create(fA);
+  TrajectoryReader *one_trj = dynamic_cast<TrajectoryReader *>(one.get());
+  if (!one_trj) { F.add("dual-role:" + c.fmt + "-not-a-trajectory-reader", "factory product for " + fA + " does not implement TrajectoryReader"); return; }
+  for (size_t i = 0; i < c.seq.size(); i++) {
+    char op = c.seq[i];
+    // class of what the object did before: played the topology role at least once, or only trajectory passes, or nothing yet
+    std::string prev = c.seq.substr(0, i).find('T') != std::string::npos ? "T" : (i > 0 ? "trajectory-pass" : "nothing");
+    std::string got, ref;
+    bool threw = false, rthrew = false;
+    if (op == 'T') {
+      got = do_T(*one);
+      std::unique_ptr<TopologyReader> fr = TopReaderFactory().Create(fA);
+      ref = do_T(*fr);
+    } else {
+      const std::string &file = op == 'J' ? fB : op == 'M' ? fC : fD;
+      got = do_pass(*one_trj, file, threw);
+      std::unique_ptr<TrajectoryReader> fr = TrjReaderFactory().Create(file);
+      ref = do_pass(*fr, file, rthrew);
+    }
+    std::string where = "step " + std::to_string(i + 1) + " (" + op + ") of history " + c.seq + " on one " + c.fmt + " reader object";
+    if ((op == 'M' || op == 'm') && !threw)
+      F.add("dual-role:" + c.fmt + "-mismatch-not-reported-after-" + prev, where + ": file of " + (op == 'M' ? "3 atoms" : "1 atom") + ", topology of 2 beads, no error reported (fresh object: " + (rthrew ? "error" : "no error either") + ")");
+    if (got != ref)
+      F.add("dual-role:" + c.fmt + "-" + op + "-differs-after-" + prev, where + " differs from the same step on a fresh object: " + first_diff(got, ref));
+    sig += std::string(1, op) + (threw ? "!" : "") + std::to_string(bsx::fnv(got) % 1000) + ",";
+  }
+}
+
 // ------------------------------------------------------------------ one case
 static bsx::Outcome run_case(const TC &c) {
   bsx::Outcome o;
@@ -917,6 +1041,7 @@ static bsx::Outcome run_case(const TC &c) {
     else if (c.fam == "pbx") run_pbx(c, F, sig);
     else if (c.fam == "xml") run_xml(c, F, sig);
     else if (c.fam == "ru") run_ru(c, F, sig);
+    else if (c.fam == "dr") run_dr(c, F, sig);
     else throw std::runtime_error("unknown family " + c.fam);
   } catch (const std::exception &e) {
     F.add(kf(c.fmt) + "-" + c.fam + "-unexpected-exception", std::string("unexpected exception: ") + e.what());
@@ -978,6 +1103,12 @@ static std::vector<TC> enumerate(bool thorough) {
             }
           }
       }
+  for (int nb = 1; nb <= maxnb; nb++)
+    for (int m = 1; m <= maxnb + 1; m++) {
+      if (m == nb) continue;
+      TC c; c.fam = "mm"; c.fmt = "data"; c.nb = nb; c.m = m; c.at = 0; c.pat = nb + m;
+      all.push_back(c);
+    }
   // 4. second dlpoly file in one process
   for (int first = 0; first < 2; first++)
     for (int nb = 1; nb <= 2; nb++)
@@ -1034,12 +1165,24 @@ static std::vector<TC> enumerate(bool thorough) {
             all.push_back(c);
           }
   }
+  // 8. dual-role histories on ONE reader object (family dr): every sequence of length 2..3 (thorough 4) over {T, J, M, m}
+  for (const char *f : {"gro", "xyz", "pdb", "dump", "data"})
+    for (int len = 2; len <= (thorough ? 4 : 3); len++) {
+      int n = 1;
+      for (int i = 0; i < len; i++) n *= 4;
+      for (int q = 0; q < n; q++) {
+        TC c; c.fam = "dr"; c.fmt = f;
+        for (int i = 0, qq = q; i < len; i++, qq /= 4) c.seq += "TJMm"[qq % 4];
+        all.push_back(c);
+      }
+    }
   return all;
 }
 
 // key of a case whose child process died (abort from an assertion, segfault)
 static std::string fatal_key(const TC &c) {
   if (c.fam == "mm") return kf(c.fmt) + "-mismatch-not-reported";  // died on an out-of-range bead access instead of raising
+  if (c.fam == "dr") return "dual-role:" + c.fmt + (c.seq.find('M') != std::string::npos ? "-crash-history-with-larger-frame" : "-crash");
   return kf(c.fmt) + "-" + c.fam + "-crash";
 }
 static void parse_fails(const std::string &extra, std::vector<std::pair<std::string, std::string>> &out) {
@@ -1080,6 +1223,10 @@ int main(int argc, char **argv) {
       "x velocity/force presence as far as the dialect stores them x 4 naming schemes (1 char, 1..5 chars with distinct types/residues, over-long 7..8 chars, element names) "
       "[x shim on/off for xyz and pdb]; (c) atom-count mismatch: frame of nb atoms read into a topology of m != nb beads at frame 0 or 1; "
       "(d) second dlpoly file of a process; (e) CRYST1 via PDBWriter::WriteBox; (f) generated xml topology + written trajectory; "
+      "(h) dual-role histories on ONE reader object for the classes that are TopologyReader and TrajectoryReader at once (gro, xyz, pdb, lammps dump, lammps data; "
+      "factory product cross-cast to the other interface): every sequence of length 2.." + std::string(thorough ? "4" : "3") + " over {T = ReadTopology(file A, fresh topology), "
+      "J = trajectory pass Open/FirstFrame/NextFrame.../Close of file B on a topology built by a fresh reader, M / m = the same pass with a file holding more / fewer atoms than the topology (must report an error)}; "
+      "oracle: every step equals, bit for bit, the same step on a fresh reader object (bead count, names, types, residues, mass, charge, positions/velocities/forces incl. presence flags, box, frame count, error or not); "
       "(g) reuse histories over 4 base configurations (1 bead/1 frame, 2 beads/2 frames+vel, 2 beads+vel+force+triclinic, 3 beads/3 frames), all ordered pairs: "
       "one writer object for two files, one reader object for two files (also closed after the first frame of file 1), incl. dlph<->dlpc; "
       "one Topology receiving a file of format a then a file of format b (all 36 ordered format pairs x velocity/force presence {none, vel, vel+force}^2) "
